@@ -200,6 +200,9 @@ def export_bytes(sc, pps, fmt, workdir):
     return ["ok", hashlib.sha1(data).hexdigest()]
 
 
+FALLBACK = {}
+
+
 def make(case, workdir):
     rng = random.Random(case["seed"])
     sc, pps = gen_scenario(rng)
@@ -214,6 +217,7 @@ def make(case, workdir):
                 path, OverwriteExistingFile.ALWAYS)
             return CommonRoadFileReader(path).open()
     except Exception:  # noqa  (a generated scenario the format cannot hold: judged by C01-C03; use it as generated)
+        FALLBACK[src] = FALLBACK.get(src, 0) + 1
         rng = random.Random(case["seed"])
         return gen_scenario(rng)
 
@@ -810,7 +814,7 @@ def run(ctx):
                                  "log": f"code version read off the source: occ_on_copy={flags[0]} "
                                         f"pb_checks_key={flags[1]} (None = construct not recognised)"})
         ctx.log(f"proof_broken: the source is not the code version the theorems are about: {what}")
-    n = ctx.n(260, 3000)
+    n = ctx.n(330, 2500)
     wd = workdir()
     cases, traces = [], []
     dist = {}
@@ -830,6 +834,7 @@ def run(ctx):
 
     run_all(load_corpus(ctx.prop) + gen(ctx.rng, n), True)
     ctx.coverage["operations"] = dist
+    ctx.coverage["read_back_not_possible_used_as_generated"] = dict(FALLBACK)
     corr(ctx, traces if ctx.quick else traces[:1500], cases)
     if (ctx.proof_breaks or ctx.corr_breaks) and not ctx.failures:
         ctx.log(f"proof/correspondence broke ({len(ctx.proof_breaks)}/{len(ctx.corr_breaks)}); widening the search")
